@@ -39,6 +39,38 @@ def build_binary(ctx, race=True):
     return out
 
 
+def run_gated(ctx, binary, rounds, seed, tag=""):
+    d = ctx.path("run_gated%s" % tag)
+    os.makedirs(d, exist_ok=True)
+    outp = os.path.join(d, "out.ndjson")
+    logp = os.path.join(d, "log.txt")
+    env = vlib.go_env({"GORACE": "halt_on_error=0", "VERIF_DIR": d, "VERIF_OUT": outp,
+                       "VERIF_C05_ROUNDS": str(rounds), "VERIF_SEED": str(seed)})
+    with open(logp, "w") as fh:
+        try:
+            p = subprocess.run([binary, "-test.run", "^TestZZVerifC05Gated$", "-test.timeout", "600s"],
+                               cwd=d, env=env, stdout=fh, stderr=subprocess.STDOUT, timeout=660)
+            rc = p.returncode
+        except subprocess.TimeoutExpired:
+            rc = -9
+    return {"family": "Gated", "rc": rc, "log": open(logp, errors="replace").read(), "rows": vlib.read_ndjson(outp), "dir": d}
+
+
+def analyse_gated(ctx, res):
+    rows = [r for r in res["rows"] if r.get("kind") == "gated"]
+    bad = [r for r in rows if r.get("bad")]
+    races = raceparse.parse(res["log"])
+    seen = set()
+    for r in races:
+        key = race_key(r["pair"])
+        if key is None or (key, r["pair"]) in seen:
+            continue
+        seen.add((key, r["pair"]))
+        ctx.disagreement(key, {"family": "Gated", "pair": list(r["pair"]), "report": r["raw"]},
+                         "data race between %s and %s (gated interleavings)" % r["pair"])
+    return rows, bad
+
+
 def run_family(ctx, binary, fam, ms, seed, tag=""):
     d = ctx.path("run_%s%s" % (fam, tag))
     os.makedirs(d, exist_ok=True)
@@ -336,6 +368,29 @@ def run(ctx):
         total_q += s["queries"]
         total_a += s["admin_ops"]
         total_races += s["races"]
+    # Deterministic interleavings: requests parked in the Upstream stage while
+    # each admin operation runs.
+    grounds = 3 if ctx.quick else 12
+    gres = run_gated(ctx, binary, grounds, ctx.seed)
+    grows, gbad = analyse_gated(ctx, gres)
+    if gbad:
+        # Reproduce in a second, isolated run before reporting.
+        gres2 = run_gated(ctx, binary, grounds, ctx.seed, tag="_again")
+        grows2, gbad2 = analyse_gated(ctx, gres2)
+        fams_bad = {r["family"] for r in gbad} & {r["family"] for r in gbad2}
+        for r in gbad2:
+            if r["family"] in fams_bad:
+                what = r["bad"][0].splitlines()[0][:200]
+                kind = "stall" if what.startswith("STALL") else ("panic" if what.startswith("panic") else "no-wellformed-response")
+                ctx.disagreement("gated:%s:%s" % (kind, r["family"]), {"family": r["family"], "round": r["round"], "bad": [b[:8000] for b in r["bad"]], "replies": r["replies"]},
+                                 "request parked in Upstream during admin op %s: %s" % (r["family"], what))
+        if not fams_bad:
+            ctx.notes.append("gated failure not reproduced: %s" % sorted({r["family"] for r in gbad}))
+    if not grows or (gres["rc"] not in (0, 1) and not gbad):
+        raise vlib.Inconclusive("gated interleaving driver did not complete:\n" + gres["log"][-2000:])
+    parked = sum(r.get("parked", 0) for r in grows)
+    if parked == 0:
+        raise vlib.Inconclusive("gated driver never parked a request in the upstream")
     unrepro = [s["family"] for s in summaries if s.get("unreproduced_stall")]
     # Vacuity: every family must have executed queries and successful admin operations.
     for s in summaries:
@@ -349,7 +404,7 @@ def run(ctx):
     if unrepro and not ctx.violations:
         raise vlib.Inconclusive("stall observed but not reproduced in families %s" % unrepro)
     cov = {
-        "traces_validated_against_impl": len(results),
+        "traces_validated_against_impl": len(results) + len(grows),
         "evaluations": total_q + total_a,
         "distinct_nontrivial": len([s for s in summaries if s["queries"] > 0 and s["admin_ops"] > 0]),
         "rule": "one execution per scenario family derived from Concurrency.tla's conflict pairs (writer x request stage sharing a cell); "
@@ -357,6 +412,7 @@ def run(ctx):
         "queries": total_q, "admin_ops": total_a, "race_reports": total_races,
         "families": {s["family"]: {k: s.get(k) for k in ("queries", "admin_ops", "races", "classes", "stalled")} for s in summaries},
         "lock_order": lo,
+        "gated_interleavings": len(grows), "gated_requests_parked": parked,
         "conflict_pairs": fams[0]["pairs"], "spec_families": spec_fams,
         "samples": [summaries[0], summaries[-1]],
         "exhaustive": False,
